@@ -239,6 +239,26 @@ def run_ranking(case):
                 rec["out"] = "nothing-generated"
                 return rec
             r = rs[0]
+        elif case["src"] == "ctor_alias":
+            # the caller keeps the sets it gave to the constructor and modifies them afterwards: the views of the
+            # ranking must still agree with ITS buckets (whether or not it copied them)
+            E = _impl["Element"]
+            raw = [{E(nm.names[x]) for x in b} for b in case["r"]]
+            r = Ranking(raw)
+            r2 = Ranking(r.buckets)            # a second ranking built from the buckets of the first
+            for k, b in enumerate(raw):        # the caller then modifies ITS OWN sets
+                if k % 2 == 0:
+                    b.add(E(nm.names[ne]))
+                elif len(b) > 1:
+                    b.pop()
+            r = r if case.get("which", 0) == 0 else r2
+        elif case["src"] == "consensus_handbuilt":
+            from corankco.consensus import Consensus
+            r = Ranking(nm.raw_ranking(case["r"]))
+            other = Ranking(nm.raw_ranking(case["r2"]))
+            c = Consensus([r, other])
+            _ = (c.nb_elements, c.elements, str(c), c.description())
+            r = c.consensus_rankings[case.get("which", 0) % 2]
         elif case["src"] == "consensus":
             from . import algorun
             from corankco.scoringscheme import ScoringScheme
